@@ -11,8 +11,8 @@ Open Scope list_scope.
 (* ====================================================================================== *)
 (* reload                                                                                  *)
 (* ====================================================================================== *)
-(* the compositions whose own files the code reads back to the same description: everything except
-   ModifiedPrior (-x, abs x) and Models without a free parameter (both refuted in Refute.v).
+(* the compositions whose own files the code reads back to the same description: everything except Models
+   without a free parameter that the class constructor can rebuild exactly (refuted in Refute.v).
    Arithmetic priors are included whatever the caller-derived attribute names are. *)
 Fixpoint reload_ok (n : node) : bool :=
   let all := (fix go (l : list (string * node)) : bool :=
@@ -22,8 +22,8 @@ Fixpoint reload_ok (n : node) : bool :=
   | NFloat _ | NInt _ | NBool _ | NStr _ | NNone | NOther _ => true
   | NTuple _ ms => all ms
   | NBinop _ _ _ _ l r => reload_ok l && reload_ok r
-  | NUnop _ _ _ _ => false
-  | NModel _ _ _ _ attrs => has_prior n && all attrs
+  | NUnop _ _ _ a => modified_prior_storable && reload_ok a
+  | NModel _ _ _ _ attrs => (has_prior n || (instance_only_when_exact && negb (inst_exact n))) && all attrs
   | NColl _ k attrs => Z.eqb k (if reload_restores_item_number then count_digit_keys attrs else 0) && all attrs
   | NInst _ _ _ attrs => all attrs
   | NSearch c _ _ => negb (String.eqb c "Drawer") || drawer_json_readable
@@ -89,10 +89,16 @@ Proof.
     cbn [reload]. rewrite Rl, Rr. eexists. split; [reflexivity|].
     cbn [reify]. rewrite compound_fields_declared. rewrite !strip_inst. f_equal.
     rewrite !strip_entries_cons, Sl, Sr. reflexivity.
-  - discriminate H.
-  - (* model with a free parameter *)
+  - (* negated / absolute-value prior: stored with its name and operand *)
+    cbn [reload_ok] in H. apply andb_true_iff in H. destruct H as [H1 H2].
+    destruct (IHa H2) as [a' [Ra Sa]].
+    cbn [reload]. rewrite H1, Ra. eexists. split; [reflexivity|].
+    cbn [reify]. rewrite modified_fields_declared. rewrite !strip_inst. f_equal.
+    rewrite !strip_entries_cons, Sa. reflexivity.
+  - (* model with a free parameter, or one the constructor cannot rebuild exactly *)
     change (reload_ok (NModel mid lbl cls cargs attrs))
-      with (has_prior (NModel mid lbl cls cargs attrs) &&
+      with ((has_prior (NModel mid lbl cls cargs attrs) ||
+             (instance_only_when_exact && negb (inst_exact (NModel mid lbl cls cargs attrs)))) &&
             (fix go (l : list (string * node)) : bool :=
                match l with [] => true | kv :: r => match kv with (_, v) => reload_ok v && go r end end) attrs) in H.
     rewrite reload_ok_go in H. apply andb_true_iff in H. destruct H as [H1 H2].
@@ -101,7 +107,9 @@ Proof.
       with (match all_some ((fix go (l : list (string * node)) : list (string * option node) :=
                                match l with [] => [] | kv :: r => match kv with (k, v) => (k, reload v) :: go r end end) attrs) with
             | Some attrs' =>
-                if has_prior (NModel mid lbl cls cargs attrs) then Some (NModel mid lbl cls cargs attrs')
+                if has_prior (NModel mid lbl cls cargs attrs) ||
+                   (instance_only_when_exact && negb (inst_exact (NModel mid lbl cls cargs attrs)))
+                then Some (NModel mid lbl cls cargs attrs')
                 else match by_ctor cargs attrs' with
                      | Some a => Some (NInst (basename cls) cargs None a)
                      | None => None
